@@ -15,7 +15,7 @@ LEVEL = "model_checking"
 RULE = (
     "operation sequences over add_plugin(plugin in {P1{alpha,beta}, P2{beta,gamma}, P3{alpha,gamma,slsqp; not "
     "discoverable}}, name in case variants incl. a name clash, normal|prioritized) on manager 0 or 1, on top of the real "
-    "entry-point plug-ins; after every step ALL 20 lookups (incl. method names that contain a slash) (bare names, plugin/method in mixed case, unknown plug-ins and "
+    "entry-point plug-ins; after every step ALL 27 lookups (incl. method names that contain a slash, and method names a plug-in matches case-sensitively) (bare names, plugin/method in mixed case, unknown plug-ins and "
     "methods) via get_plugin and is_supported plus plugins() order are compared on BOTH managers with an ordered-list "
     "reference registry. Exhaustive for length <=3 (quick) / <=5 (thorough) for plug-in type 'optimizer', length <=2 for "
     "the five other types; a Hypothesis rule-based state machine adds long random histories with interleaved lookups. "
@@ -30,13 +30,14 @@ TYPES = ["optimizer", "sampler", "realization_filter", "function_estimator", "pl
 
 
 class Fake(Plugin):
-    def __init__(self, tag: str, methods: set[str], *, discoverable: bool = True) -> None:  # noqa: D107
+    def __init__(self, tag: str, methods: set[str], *, discoverable: bool = True, exact: set[str] | None = None) -> None:  # noqa: D107
         self.tag = tag
         self.methods = methods
         self.discoverable = discoverable
+        self.exact = exact or set()  # method names this plug-in matches case-sensitively (how it matches is the plug-in's business)
 
     def is_supported(self, method: str) -> bool:
-        return method.lower() in self.methods
+        return method.lower() in self.methods or method in self.exact
 
     @property
     def allows_discovery(self) -> bool:
@@ -49,7 +50,7 @@ class Fake(Plugin):
 def universe() -> dict[str, Fake]:
     return {
         "P1": Fake("P1", {"alpha", "beta"}),
-        "P2": Fake("P2", {"beta", "gamma"}),
+        "P2": Fake("P2", {"beta", "gamma"}, exact={"Delta", "sub/Eps"}),
         "P3": Fake("P3", {"alpha", "gamma", "slsqp", "norm", "mean", "tracker", "evaluator", "sort-objective",
                           "sub/alpha", "p1/beta"}, discoverable=False),
     }
@@ -66,7 +67,9 @@ def lookups(ptype: str) -> list[str]:
     return ["alpha", "beta", "gamma", "BETA", real, real.upper(), "nope", "p1/alpha", "P1/beta", "p2/alpha", "P2/Gamma", "p3/alpha",
             f"P3/{real}", "zz/alpha", "p1/", f"external/{real}",
             # method names that themselves contain a slash: only the part before the FIRST slash names the plug-in
-            "p3/sub/alpha", "P3/p1/beta", "p1/sub/alpha", f"external/scipy/{real}" if ptype == "optimizer" else "p3/Sub/Alpha"]
+            "p3/sub/alpha", "P3/p1/beta", "p1/sub/alpha",
+            # the method part is handed to the plug-in as written (P2 matches 'Delta' case-sensitively)
+            "Delta", "delta", "p2/Delta", "P2/Delta", "p2/delta", "P2/sub/Eps", "p2/sub/eps", f"external/scipy/{real}" if ptype == "optimizer" else "p3/Sub/Alpha"]
 
 
 class Model:
@@ -208,7 +211,7 @@ def machine_shard(item: dict[str, Any]) -> Collector:
             self.stats["prio"] += prioritize and did
             self._check(did == expect_ok, "duplicate", f"add_plugin({name!r},{tag},{prioritize}) accepted={did}, expected {expect_ok}")
 
-        @rule(m_i=st.integers(0, 1), l_i=st.integers(0, 19), use_supported=st.booleans())
+        @rule(m_i=st.integers(0, 1), l_i=st.integers(0, 26), use_supported=st.booleans())
         def lookup(self, m_i: int, l_i: int, use_supported: bool) -> None:  # noqa: FBT001
             method = lookups(self.ptype)[l_i]
             self.trace.append(["lookup", m_i, l_i, use_supported])
